@@ -35,6 +35,9 @@ def curve3_dedup_rule(cx):
               'the duplicate filter is the only thing that removes section vertices', where=b.file)
 
 def run(cx):
+    # the cutting plane keeps the orientation it was given: Positive / Negative of a split follow the plane's normal (Plane3 convention rules, shared with C19 / C03)
+    from rules.C19 import plane3_rules
+    plane3_rules(cx)
     # the TriMesh that split / section run on is built from the vertices and faces alone: the solid flag is a query option, not a build option
     # (with ORIENTED pseudo-normals parry's split caps both halves, and the areas of the parts no longer add up to the area of the mesh)
     M = 'geom3::mesh::Mesh'
